@@ -119,6 +119,40 @@ class CallGraph(object):
                                 for xm, xc in model.mro(cm, cc):
                                     for a_ in attrs:
                                         out.setdefault((xc.name, a_), set()).update(targets)
+        # callbacks handed over as **mapping (built from a table of names, getattr(self, name)): run the constructor abstractly
+        # and read which bound methods ended up on the object it creates
+        for m, q, f in model.all_functions():
+            owner = m.enclosing_class(f)
+            if owner is None or f.name != '__init__':
+                continue
+            starred = False
+            for n in walk_no_defs(f):
+                if isinstance(n, ast.Call) and any(kw.arg is None for kw in n.keywords):
+                    r = model.resolve_attr_chain(m, n.func)
+                    if r and r[0] == 'class':
+                        starred = True
+            if not starred:
+                continue
+            try:
+                from .absint import Interp, ClassV, Obj, Bound, Func, Unmodelled, Const
+                from .model import AnalysisError
+                box = {}
+
+                def make(interp, st, m=m, owner=owner):
+                    box.setdefault('objs', []).append(interp.instantiate(ClassV(m, owner), []))
+                    return Const(None)
+                Interp(model).run(make)
+                for o in box.get('objs', []):
+                    for a, v in o.attrs.items():
+                        if isinstance(v, Obj) and v.cls.module is not None:
+                            for a2, v2 in v.attrs.items():
+                                if isinstance(v2, Bound) and v2.obj is o and isinstance(v2.func, Func) and \
+                                        isinstance(v2.func.node, ast.FunctionDef):
+                                    key = (v2.func.module.name, v2.func.module.qualname_of(v2.func.node))
+                                    for xm, xc in model.mro(v.cls.module, v.cls.node):
+                                        out.setdefault((xc.name, a2), set()).add(key)
+            except Exception:
+                continue
         return out
 
     def _find_attr_classes(self):
